@@ -229,7 +229,7 @@ def run_case(ctx, k, rng):
             num = int(rng.choice([4097, 5000, 8193, 10001, 20000]))      # fine grids: thousands of samples per depth
             ctx.note("large-cases")
         start, stop = float(rng.integers(-3, 3)), float(rng.integers(4, 12))
-        style = str(rng.choice(["values", "diagram", "difference"]))
+        style = str(rng.choice(["values", "diagram", "difference", "dgms+values", "centred"]))
         try:
             import io, contextlib
             with contextlib.redirect_stdout(io.StringIO()):
@@ -252,6 +252,26 @@ def run_case(ctx, k, rng):
                     P = PLA(start=start, stop=stop, num_steps=num, values=np.array(vals) if form != "list-of-int" or rng.random() < 0.5 else np.array(vals, dtype=int), hom_deg=0)
                     if rng.random() < 0.3 and form != "float64":
                         P = -P if rng.random() < 0.5 else P * 2          # the dtype survives arithmetic
+                elif style in ("dgms+values", "centred"):
+                    # an object that still carries its diagram but whose samples take both signs: the documented constructor form with
+                    # dgms (fixing the grid) and values, or a diagram-built landscape centred in place (sample minus mean)
+                    n = int(rng.integers(1, 6))
+                    b = rng.uniform(max(start, 0), stop - 1, n); d = np.minimum(b + rng.uniform(0.5, 5, n), stop)
+                    bars_ = np.column_stack([b, d])
+                    if style == "dgms+values":
+                        K = int(rng.integers(1, 4))
+                        vals = rng.integers(-4, 5, (K, num)) / 2.0 + rng.normal(0, 0.1, (K, num)) * float(rng.integers(0, 2))
+                        P = PLA(dgms=[bars_], values=vals, num_steps=num, hom_deg=0, start=(None if rng.random() < 0.5 else start),
+                                stop=(None if rng.random() < 0.5 else stop))
+                    else:
+                        P = PLA(start=start, stop=stop, num_steps=num, dgms=[bars_], hom_deg=0)
+                        if np.asarray(P.values).dtype.kind in "US":
+                            return
+                        c = float(np.mean(P.values)) if rng.random() < 0.5 else float(np.max(P.values)) * float(rng.uniform(0.2, 0.8))
+                        if rng.random() < 0.5:
+                            P.values -= c
+                        else:
+                            P.values = P.values - c
                 else:
                     def mk():
                         while True:     # a grid without interior node stores a string sentinel: not an operand
